@@ -49,6 +49,8 @@ class HistEngine:
         if hasattr(eng_locks, "atomicity_check"):
             try:
                 res = eng_locks.atomicity_check(locks_scratch, known)
+                if "*" in res:          # the table could not be built: a failure for every property it backs
+                    res = {pid: res["*"]}
                 if pid in res:
                     aok, rows, aev = res[pid]
                     ev["atomicity"] = aev
